@@ -66,6 +66,14 @@ FUNC_CHECKS = {
     ("cmd/hidi/config.go", "LoadHIDIConfig"): ["C09"],
     ("cmd/hidi/config.go", "updateHIDIConfiguration"): ["C18"],
 }
+for fn in ("handleOpenrgb", "", "shiftColor", "valueToColor", "Value", "LEDSequence", "findController", "resolveHidraw"):
+    FUNC_CHECKS[(D + "open_rgb.go", fn)] = ["C17"]
+for fn in ("Type", "Note", "Channel", ""):
+    FUNC_CHECKS[("internal/pkg/midi/event.go", fn)] = ["C17", "C11"]
+FUNC_CHECKS[("internal/pkg/input/device.go", "String")] = []
+FUNC_CHECKS[("internal/pkg/input/device.go", "SupportsNKRO")] = []
+FUNC_CHECKS[("internal/pkg/input/info.go", "EventPath")] = []
+FUNC_CHECKS[("cmd/hidi/config.go", "loadDeviceBlacklist")] = []
 for fn in ("OctaveUp", "OctaveDown", "OctaveReset", "SemitoneUp", "SemitoneDown", "SemitoneReset", "ChannelUp", "ChannelDown", "ChannelReset",
            "MappingUp", "MappingDown", "MappingReset", "forgetAxisValues", "State"):
     FUNC_CHECKS[(D + "device.go", fn)] = ["C04", "C01", "C17"]
